@@ -2,13 +2,16 @@
 // the real zygomys library (built from /repo with -tags verif).
 //
 // Every family registers a subcommand in an init() function of its own file:
-//   zv <family> [flags]
+//
+//	zv <family> [flags]
+//
 // Common flags (parsed by each family through commonFlags):
-//   -out FILE      ndjson output, one case per line
-//   -seed N        seed for every random choice
-//   -tier quick|thorough
-//   -shard i -nshard k   run only cases with index%k == i
-//   -replay FILE   re-execute the single case stored in FILE
+//
+//	-out FILE      ndjson output, one case per line
+//	-seed N        seed for every random choice
+//	-tier quick|thorough
+//	-shard i -nshard k   run only cases with index%k == i
+//	-replay FILE   re-execute the single case stored in FILE
 package main
 
 import (
